@@ -11,6 +11,7 @@ import (
 	"math/rand"
 	"os"
 	"sort"
+	"strings"
 
 	"github.com/sirupsen/logrus"
 
@@ -30,12 +31,25 @@ type body struct {
 
 type kernelT map[string][]rule
 
+// member of an nftables verdict map: interface -> goto chain
+type mapMember struct {
+	K   string `json:"k"`
+	Tgt string `json:"tgt"`
+}
+
+type kmapsT map[string][]mapMember
+
 type edit struct {
 	Kind  string
 	Chain string
 	Pos   int
 	Rule  rule
 	Rules []rule
+	// verdict-map edits (nftables only)
+	Map     string
+	K       string
+	Tgt     string
+	Members []mapMember
 }
 
 // backend = one table implementation over its kernel mock.
@@ -53,6 +67,12 @@ type backend interface {
 	apply() bool
 	kernel() kernelT
 	setKernelChain(chain string, rules []rule, present bool)
+	// nftables verdict maps (no-ops / empty for the iptables backends)
+	setMap(name string, members []mapMember)
+	removeMap(name string)
+	kmaps() kmapsT
+	setKernelMap(name string, members []mapMember, present bool)
+	delTable()
 	failWrites(n int)
 	failReads(n int)
 	clearFailures()
@@ -63,6 +83,8 @@ type backend interface {
 type drv struct {
 	log *tracelog.Log
 	be  backend
+	// names of the verdict maps currently asked for (bookkeeping for the composite "program" op)
+	desiredMaps map[string]bool
 }
 
 func (d *drv) onRead(ok bool) { d.log.Emit("read", map[string]any{"ok": ok}) }
@@ -71,7 +93,7 @@ func (d *drv) onWrite(ok, injected bool, touched []string, why string) {
 	if touched == nil {
 		touched = []string{}
 	}
-	d.log.Emit("write", map[string]any{"ok": ok, "injected": injected, "touched": dedup(touched), "kernel": d.be.kernel(), "why": why})
+	d.log.Emit("write", map[string]any{"ok": ok, "injected": injected, "touched": dedup(touched), "kernel": d.be.kernel(), "maps": d.be.kmaps(), "why": why})
 }
 
 func dedup(s []string) []string {
@@ -109,6 +131,30 @@ func toBodies(v any) []body {
 	return out
 }
 
+// bodiesFor: the iptables backends have no verdict maps; rules that look one up ("@map") are left out there.
+func (d *drv) bodiesFor(v any) []body {
+	out := []body{}
+	for _, b := range toBodies(v) {
+		if strings.HasPrefix(b.Tgt, "@") && !d.be.owns() {
+			continue
+		}
+		out = append(out, b)
+	}
+	return out
+}
+
+func toMembers(v any) []mapMember {
+	out := []mapMember{}
+	if a, ok := v.([]any); ok {
+		for _, x := range a {
+			m, _ := x.(map[string]any)
+			out = append(out, mapMember{K: tracelog.Str(m["k"]), Tgt: tracelog.Str(m["tgt"])})
+		}
+	}
+	sort.Slice(out, func(i, j int) bool { return out[i].K < out[j].K })
+	return out
+}
+
 func (d *drv) toEdit(v any) edit {
 	m, _ := v.(map[string]any)
 	e := edit{Kind: tracelog.Str(m["kind"]), Chain: d.be.realChain(tracelog.Str(m["chain"])), Pos: tracelog.Int(m["pos"])}
@@ -117,6 +163,10 @@ func (d *drv) toEdit(v any) edit {
 	}
 	if r, ok := m["rules"]; ok {
 		e.Rules = toRules(r)
+	}
+	e.Map, e.K, e.Tgt = tracelog.Str(m["map"]), tracelog.Str(m["k"]), tracelog.Str(m["tgt"])
+	if ms, ok := m["members"]; ok {
+		e.Members = toMembers(ms)
 	}
 	return e
 }
@@ -139,6 +189,10 @@ func uniq(rs []rule) []rule {
 // applyEdit performs an out-of-band edit on the kernel mock (same meaning as EditFn in RTableEnv.tla);
 // returns false when it changes nothing.
 func (d *drv) applyEdit(e edit) bool {
+	switch e.Kind {
+	case "deltable", "delmap", "addmap", "delmember", "addmember":
+		return d.applyMapEdit(e)
+	}
 	k := d.be.kernel()
 	cur, present := k[e.Chain]
 	switch e.Kind {
@@ -200,13 +254,80 @@ func (d *drv) applyEdit(e edit) bool {
 		if !present {
 			return false
 		}
+		// the kernel refuses to delete a chain that a verdict-map element points to
+		for _, ms := range d.be.kmaps() {
+			for _, m := range ms {
+				if m.Tgt == e.Chain {
+					return false
+				}
+			}
+		}
 		d.be.setKernelChain(e.Chain, nil, false)
 	case "addchain":
 		d.be.setKernelChain(e.Chain, uniq(e.Rules), true)
 	default:
 		panic("unknown edit " + e.Kind)
 	}
-	d.log.Emit("edit", map[string]any{"kernel": d.be.kernel(), "kind": e.Kind, "chain": e.Chain})
+	d.log.Emit("edit", map[string]any{"kernel": d.be.kernel(), "maps": d.be.kmaps(), "kind": e.Kind, "chain": e.Chain})
+	return true
+}
+
+// applyMapEdit: out-of-band edits of the nftables table's verdict maps / of the whole table.
+func (d *drv) applyMapEdit(e edit) bool {
+	if !d.be.owns() {
+		return false
+	}
+	km := d.be.kmaps()
+	cur, present := km[e.Map]
+	// the kernel only accepts map elements whose verdict names an existing chain
+	chains := d.be.kernel()
+	for _, m := range e.Members {
+		if _, ok := chains[m.Tgt]; !ok && e.Kind == "addmap" {
+			return false
+		}
+	}
+	if _, ok := chains[e.Tgt]; !ok && e.Kind == "addmember" {
+		return false
+	}
+	switch e.Kind {
+	case "deltable":
+		if len(km) == 0 && len(d.be.kernel()) == 0 {
+			return false
+		}
+		d.be.delTable()
+	case "delmap":
+		if !present {
+			return false
+		}
+		d.be.setKernelMap(e.Map, nil, false)
+	case "addmap":
+		if present {
+			return false
+		}
+		d.be.setKernelMap(e.Map, e.Members, true)
+	case "delmember":
+		n := []mapMember{}
+		for _, m := range cur {
+			if m.K != e.K {
+				n = append(n, m)
+			}
+		}
+		if !present || len(n) == len(cur) {
+			return false
+		}
+		d.be.setKernelMap(e.Map, n, true)
+	case "addmember":
+		if !present {
+			return false
+		}
+		for _, m := range cur {
+			if m.K == e.K {
+				return false
+			}
+		}
+		d.be.setKernelMap(e.Map, append(cur, mapMember{K: e.K, Tgt: e.Tgt}), true)
+	}
+	d.log.Emit("edit", map[string]any{"kernel": d.be.kernel(), "maps": d.be.kmaps(), "kind": e.Kind, "chain": e.Map})
 	return true
 }
 
@@ -242,6 +363,7 @@ func (d *drv) doApply(fw, fr int, pre string, e edit, prefail bool) {
 }
 
 func (d *drv) doRestart() {
+	d.desiredMaps = map[string]bool{}
 	d.be.restart()
 	d.log.Emit("restart", nil)
 }
@@ -249,7 +371,7 @@ func (d *drv) doRestart() {
 func (d *drv) step(op map[string]any) {
 	switch tracelog.Str(op["op"]) {
 	case "set_chain":
-		rules := toBodies(op["rules"])
+		rules := d.bodiesFor(op["rules"])
 		name := tracelog.Str(op["name"])
 		force, _ := op["force"].(bool)
 		d.be.setChain(name, rules, force)
@@ -258,13 +380,28 @@ func (d *drv) step(op map[string]any) {
 		name := tracelog.Str(op["name"])
 		d.be.removeChain(name)
 		d.log.Emit("remove_chain", map[string]any{"name": name})
+	case "set_map":
+		if d.be.owns() {
+			name, ms := tracelog.Str(op["name"]), toMembers(op["members"])
+			d.desiredMaps[name] = true
+			d.be.setMap(name, ms)
+			d.log.Emit("set_map", map[string]any{"name": name, "members": ms})
+		}
+	case "remove_map":
+		// (Maps.RemoveMap of a map that this Table was never given dereferences nil: caller contract)
+		if d.be.owns() && d.desiredMaps[tracelog.Str(op["name"])] {
+			name := tracelog.Str(op["name"])
+			delete(d.desiredMaps, name)
+			d.be.removeMap(name)
+			d.log.Emit("remove_map", map[string]any{"name": name})
+		}
 	case "set_ins":
-		rules := toBodies(op["rules"])
+		rules := d.bodiesFor(op["rules"])
 		c := d.be.realChain(tracelog.Str(op["chain"]))
 		d.be.setIns(c, rules)
 		d.log.Emit("set_ins", map[string]any{"chain": c, "rules": rules})
 	case "set_app":
-		rules := toBodies(op["rules"])
+		rules := d.bodiesFor(op["rules"])
 		c := d.be.realChain(tracelog.Str(op["chain"]))
 		d.be.setApp(c, rules)
 		d.log.Emit("set_app", map[string]any{"chain": c, "rules": rules})
@@ -290,8 +427,23 @@ func (d *drv) step(op map[string]any) {
 		for _, c := range names {
 			d.step(map[string]any{"op": "set_chain", "name": c, "rules": want[c], "force": forced[c]})
 		}
+		// verdict maps before the rules that look them up (and removed after)
+		wantMaps, _ := op["maps"].(map[string]any)
+		mnames := []string{}
+		for n := range wantMaps {
+			mnames = append(mnames, n)
+		}
+		sort.Strings(mnames)
+		for _, n := range mnames {
+			d.step(map[string]any{"op": "set_map", "name": n, "members": wantMaps[n]})
+		}
 		d.step(map[string]any{"op": "set_ins", "chain": "K1", "rules": op["ins"]})
 		d.step(map[string]any{"op": "set_app", "chain": "K1", "rules": op["app"]})
+		for n := range d.desiredMaps {
+			if _, ok := wantMaps[n]; !ok {
+				d.step(map[string]any{"op": "remove_map", "name": n})
+			}
+		}
 	case "edit":
 		d.applyEdit(d.toEdit(op["edit"]))
 	case "tick":
@@ -315,6 +467,7 @@ func (d *drv) step(op map[string]any) {
 
 func (d *drv) run(t int, be backend, beh []map[string]any) {
 	d.be = be
+	d.desiredMaps = map[string]bool{}
 	mode := "insert"
 	k := kernelT{}
 	if len(beh) > 0 && tracelog.Str(beh[0]["op"]) == "start" {
@@ -331,7 +484,7 @@ func (d *drv) run(t int, be backend, beh []map[string]any) {
 	be.start(k, mode)
 	d.log.Reset(t, map[string]any{
 		"cfg":     map[string]any{"mode": mode, "ownsAll": be.owns(), "kchains": be.kchains()},
-		"backend": be.name(), "kernel": be.kernel(),
+		"backend": be.name(), "kernel": be.kernel(), "maps": be.kmaps(),
 	})
 	for _, op := range beh {
 		d.step(op)
